@@ -459,7 +459,7 @@ def m_vec_extend_slice(ex, f, a):
 @exact('Vec::drain')
 def m_vec_drain(ex, f, a):
     v = ex.deref(a[0]); r = a[1]
-    if isinstance(r, Agg) and r.ty == 'RangeFull' or isinstance(r, Opaque):
+    if isinstance(r, Agg) and r.ty == 'RangeFull' or not isinstance(r, Agg):      # `..` is a ZST constant
         out = list(v.items); del v.items[:]; return Iter(out)
     lo = r.fields[0] if r.ty in ('Range', 'RangeFrom') else 0
     hi = r.fields[1] if r.ty == 'Range' else (r.fields[0] if r.ty == 'RangeTo' else len(v.items))
